@@ -51,14 +51,14 @@ enum F {
     DropMid,
 }
 
-pub fn run(args: &Args, cfg: Cfg, pat: Arc<Pattern>, rng: &mut Rng, sink: &mut Sink) {
+pub fn run<W: crate::WLike>(args: &Args, cfg: Cfg, pat: Arc<Pattern>, rng: &mut Rng, sink: &mut Sink) {
     let rt = tokio::runtime::Builder::new_multi_thread().worker_threads(4).enable_all().build().unwrap();
     let mut parts = Stream::new("parts", REQ, "chk_parts", "cfg_code * N", "option N * list N");
     let i = cfg.init;
     let top = 17 * crate::MIB;
 
     // ---------- (a) recording store, auto mode
-    let n = args.vol(40, 600);
+    let n = args.vol(40, 250);
     for case in 0..n {
         let fixed = [0, 1, i - 1, i, i + 1, 2 * i - 1, 2 * i, 2 * i + 1, 3 * i, 3 * i + 1, top];
         let mut total = if rng.chance(1, 2) { *rng.pick(&fixed) } else { rng.below(top + 1) }.min(top);
@@ -105,7 +105,7 @@ pub fn run(args: &Args, cfg: Cfg, pat: Arc<Pattern>, rng: &mut Rng, sink: &mut S
         let stop_after = if matches!(f, F::AbortMid | F::DropMid) { rng.below(chunks.len() as u64 + 1) as usize } else { usize::MAX };
         let case_json = json!({"arm": "e2e-rec", "total": total, "chunks": chunks.len(), "fault": format!("{:?}", f), "constant": constant, "cfg": [cfg.init, cfg.maxpar]});
         let (result, written) = rt.block_on(async {
-            let mut w = lstore.create(&path).await.unwrap();
+            let mut w = W::new_(&lstore, &path).await;
             let mut off = 0u64;
             let mut invisible = true;
             let mut err = false;
@@ -129,12 +129,12 @@ pub fn run(args: &Args, cfg: Cfg, pat: Arc<Pattern>, rng: &mut Rng, sink: &mut S
                 Err(())
             } else if stop_after != usize::MAX {
                 if f == F::AbortMid {
-                    w.abort().await;
+                    w.abort_().await;
                 }
                 drop(w);
                 Ok(None)
             } else {
-                match w.shutdown().await {
+                match w.shutdown_().await {
                     Ok(r) => {
                         drop(w);
                         Ok(Some(r.size))
@@ -145,11 +145,19 @@ pub fn run(args: &Args, cfg: Cfg, pat: Arc<Pattern>, rng: &mut Rng, sink: &mut S
                     }
                 }
             };
-            // let the abort spawned by Drop run
-            for _ in 0..20 {
+            // let the abort spawned by Drop run (it runs on another worker thread: wait for it, up to 5 s)
+            let expect_abort = !matches!(res, Ok(Some(_))) && f != F::Complete;
+            for _ in 0..1000 {
                 tokio::task::yield_now().await;
+                let (opened, aborted) = {
+                    let r = store.rec.lock().unwrap();
+                    (!r.calls.is_empty(), r.n_abort > 0)
+                };
+                if !expect_abort || !opened || aborted {
+                    break;
+                }
+                tokio::time::sleep(std::time::Duration::from_millis(5)).await;
             }
-            tokio::time::sleep(std::time::Duration::from_millis(5)).await;
             ((res, invisible), off)
         });
         let (res, invisible) = result;
@@ -217,7 +225,7 @@ pub fn run(args: &Args, cfg: Cfg, pat: Arc<Pattern>, rng: &mut Rng, sink: &mut S
         let lstore = store.lance(constant);
         let path = Path::from("d/big.bin");
         let size = rt.block_on(async {
-            let mut w = lstore.create(&path).await.unwrap();
+            let mut w = W::new_(&lstore, &path).await;
             let mut off = 0u64;
             while off < total {
                 let k = (4 * crate::MIB + 1).min(total - off);
@@ -225,7 +233,7 @@ pub fn run(args: &Args, cfg: Cfg, pat: Arc<Pattern>, rng: &mut Rng, sink: &mut S
                 w.write_all(&data).await.unwrap();
                 off += k;
             }
-            w.shutdown().await.map(|r| r.size).unwrap_or(usize::MAX)
+            w.shutdown_().await.map(|r| r.size).unwrap_or(usize::MAX)
         });
         let case_json = json!({"arm": "e2e-big", "total": total, "constant": constant, "cfg": [cfg.init, cfg.maxpar]});
         let (calls, offs_ok) = {
